@@ -222,6 +222,33 @@ def h_step_circuit(env, N, r, prog, config, direction, cls='CliffordCircuit'):
         env.goal('rank_unchanged', eq(state.r, r))
 
 
+def h_step_measured_circuit(env, N, r, prog):
+    """a Circuit with gates and measurement layers ('M'), compiled, run forward on an arbitrary Inv state: Inv afterwards"""
+    from .circuits import make_gates
+    M = Mods(env)
+    gs, ps = sym_state(env, N)
+    state = mk_state(M, env, gs, ps, r)
+    gates, _, assumptions = make_gates(env, M, N, [op for op in prog if op[0] != 'M'])
+    it = iter(gates)
+    circ = M.ci.Circuit(N)
+
+    def go():
+        for kind, q in prog:
+            if kind == 'M':
+                circ.measure(*q)
+            else:
+                circ.take(next(it))
+        circ.compile()
+        return circ.forward(state)
+    res = env.run(go)
+    env.goal('no_exception', b_not(res.raised))
+    if res.value is not None:
+        inv_goals(env, state.gs, state.ps, state.r, N, r)
+
+
+h_step_measured_circuit.uses_rng = True
+
+
 def h_step_measure_layer(env, N, r, qubits):
     M = Mods(env)
     gs, ps = sym_state(env, N)
@@ -337,6 +364,12 @@ def jobs(tier):
                 J.append(dict(harness=('c05', 'h_step_circuit'), params=dict(N=3, r=r, prog=prog, config=config, direction='forward' if r == 0 else 'backward'),
                               timeout_s=300, cost=15))
     J.append(dict(harness=('circuits', 'h_packing_all'), params=dict(N=3, n_ops=4), cost=12))
+    for N in (2, 3):
+        J.append(dict(harness=('circuits', 'h_packing_all'), params=dict(N=N, n_ops=3, cls='Circuit', with_measure=True), cost=5))
+    # compiled circuits with a mid-circuit measurement on an arbitrary Inv state
+    for prog in ([['CNOT', [0, 1]], ['M', [0]], ['H', [1]]], [['CNOT', [1, 0]], ['H', [0]], ['M', [1]], ['S', [0]], ['H', [1]]]):
+        for r in (0, 1):
+            J.append(dict(harness=('c05', 'h_step_measured_circuit'), params=dict(N=2, r=r, prog=prog), timeout_s=300, cost=15))
     if tier == 'thorough':
         for fix in itertools.product((0, 1), repeat=6):
             for r in range(4):
